@@ -1385,11 +1385,14 @@ class Compiler:
         # The error records collected while the exception came up
         # through macro calls end here.  (No expression of this
         # function may have been evaluated yet: the token is unset when
-        # the exception comes out of a macro rendered in place.)
+        # the exception comes out of a macro rendered in place, and
+        # the position is the one recorded by that macro.)
         error_assignment = template(
-            "rcontext.pop('__error__', None)\n"
-            "econtext[key] = cls(__exc, __tokens.get("
-            "__token, (None, None, None))[1:3])\n"
+            "__errors = rcontext.pop('__error__', None)\n"
+            "__position = __tokens.get(__token, (None, None, None))[1:3]\n"
+            "if __token is None and __errors and __errors[-1][-1] is __exc:"
+            " __position = __errors[-1][1:3]\n"
+            "econtext[key] = cls(__exc, __position)\n"
             "if handler is not None: handler(__exc)",
             cls=ErrorInfo,
             handler=load("on_error_handler"),
